@@ -100,6 +100,12 @@ M = [
  ('r2_emitarr', 'semantic', 'lib/icinga/macroprocessor.cpp', 'add_key = !arg.SkipKey && arg.RepeatKey;', 'add_key = arg.RepeatKey;', 'repeat_key overrides skip_key for the later elements'),
  ('r2_sched', 'semantic', 'lib/checker/checkercomponent.cpp', 'if (host && service && (!checkable->GetEnableActiveChecks() || !icingaApp->GetEnableServiceChecks())) {', 'if (host && service && (!checkable->GetEnableActiveChecks() || !icingaApp->GetEnableHostChecks())) {', 'services follow the global host switch'),
  ('r2_sched', 'harmless', 'lib/checker/checkercomponent.cpp', 'if (host && !service && (!checkable->GetEnableActiveChecks() || !icingaApp->GetEnableHostChecks())) {', 'if (!service && host && !(checkable->GetEnableActiveChecks() && icingaApp->GetEnableHostChecks())) {', 'reordered, De Morgan'),
+ ('r2_relayiter', 'semantic', 'lib/remote/apilistener.cpp', 'if (relayed && currentTargetZone != localZone) {', 'if (relayed) {', 'only one endpoint of the own zone gets the message'),
+ ('r2_relayiter', 'harmless', 'lib/remote/apilistener.cpp', 'bool isMaster = (currentZoneMaster == localEndpoint);\n\n\t\t\tif (!isMaster && targetEndpoint != currentZoneMaster) {', 'if (!(currentZoneMaster == localEndpoint || !(targetEndpoint != currentZoneMaster))) {', 'local folded into the test, De Morgan'),
+ ('r2_nextcheck', 'semantic', 'lib/icinga/checkable-check.cpp', 'adj = std::min(0.5 + fmod(GetSchedulingOffset(), interval * 5) / 100.0, adj);', 'adj = std::min(0.25 + fmod(GetSchedulingOffset(), interval * 5) / 100.0, adj);', 'constant of the jitter cap changed'),
+ ('r2_nextcheck', 'harmless', 'lib/icinga/checkable-check.cpp', 'double nextCheck = now - adj + interval;', 'double nextCheck = interval + now - adj;', 'summands reordered (equal in Q, not syntactically)'),
+ ('r2_ns', 'semantic', 'lib/base/netstring.cpp', '} else if (i > 16)', '} else if (i > 17)', 'one more byte is scanned for the colon'),
+ ('r2_ns2', 'semantic', 'lib/base/netstring.cpp', 'if (i >= 9)\n\t\t\tBOOST_THROW_EXCEPTION', 'if (i > 9)\n\t\t\tBOOST_THROW_EXCEPTION', 'a tenth length digit is accepted'),
  ('is_child_of', 'unrecognised', 'lib/remote/zone.cpp', '\tZone::Ptr azone = this;\n', '\tZone::Ptr azone = GetParent();\n', 'call outside the binding environment: degrades'),
 ]
 
